@@ -17,7 +17,7 @@ EXPLANATION = (
     "slots; it also reports whether the floating-point control state is saved (R2); stacks are mapped and unmapped with "
     "the same size and guard-page adjustment, and a thread object is recycled into the heap it is taken from (R3).")
 ASSUMPTIONS = ["the x86-64 Linux assembly backend is the one compiled (PIKA_HAVE_BOOST_CONTEXT off, checked)", "System V AMD64 ABI: rbx, rbp, r12-r15 and the MXCSR/x87 control bits are callee-saved"]
-FLOORS = {"C12.R1": 3, "C12.R2": 6, "C12.R3": 2, "C12.R4": 2, "C12.R5": 1, "C12.R6": 12, "C12.R7": 2, "C12.R8": 1, "C12.R9": 2}
+FLOORS = {"C12.R1": 3, "C12.R2": 6, "C12.R3": 3, "C12.R4": 2, "C12.R5": 1, "C12.R6": 12, "C12.R7": 2, "C12.R8": 1, "C12.R9": 2}
 
 TD = "pika::threads::detail::thread_data"
 CB = "pika::threads::coroutines::detail::context_base"
@@ -285,7 +285,7 @@ def run(rep, tier):
                 # the address of one of the heaps is taken (whatever the pointer variable is called)
                 m = re.match(r"^&\s*\(?this->thread_heap_(\w+)_\)?$", T(strip(e.get("rhs") if e.get("k") == "write" else e.get("init"))))
                 heap = m.group(1) if m else None
-            if e.get("k") == "call" and callee_short(e) == "push_back":
+            if e.get("k") == "call" and callee_short(e) in ("push_back", "push_front"):
                 m = re.search(r"this->thread_heap_(\w+)_$", P(e.get("recv")))
                 heap = m.group(1) if m else None
             if heap:
@@ -298,6 +298,20 @@ def run(rep, tier):
         rep.ok("C12.R3", rc[0], "create_thread_object and recycle_thread map stack sizes to the same heaps: %s" % sorted(t1))
     else:
         rep.bad("C12.R3", rc[0], rc[0].loc, "heap-selection", "a thread object can be recycled into a heap for another stack size than the one it is taken from (create: %s, recycle: %s): a task would run on a stack of the wrong size" % (t1, t2))
+
+    # the second implementation of the same pair (the per-worker holder of the shared-priority scheduler)
+    QH = facts(rep, lib("thread_pools", "src/scheduled_thread_pool.cpp"), [r"^pika::threads::detail::queue_holder_thread::(create_thread_object|recycle_thread)$"])
+    coh = [f for f in QH.find(r"queue_holder_thread::create_thread_object$") if not f.pattern]
+    rch = [f for f in QH.find(r"queue_holder_thread::recycle_thread$") if not f.pattern]
+    if not coh or not rch:
+        raise AnalysisBroken("queue_holder_thread::create_thread_object/recycle_thread not instantiated")
+    h1, h2 = heap_table(coh[0]), heap_table(rch[0])
+    if h1 and h1 == h2 and all(k == v for k, v in h1.items()):
+        rep.ok("C12.R3", rch[0], "queue_holder_thread: create_thread_object and recycle_thread map stack sizes to the same heaps: %s" % sorted(h1))
+    else:
+        rep.bad("C12.R3", rch[0], rch[0].loc, "heap-selection:queue_holder_thread", "queue_holder_thread (shared-priority scheduler): a thread object can be recycled into a heap for another "
+                "stack size than the one create_thread_object takes it from (create: %s, recycle: %s): a terminated stackless object handed out as a small-stack thread runs its task on "
+                "the worker's own stack" % (h1, h2))
 
     # ---- R6: the size a task's stack is allocated with is the configured one
     rep.rule("C12.R6", "K8 (cache of configuration entries): runtime_configuration keeps the configured stack size of each class in a member that thread_manager, the queues and the "
